@@ -19,7 +19,7 @@ RULE = ('Histories as C01 (rejections included) on removal-enabled graphs of bot
         'scan. non-trivial = some pair has >= 2 runs and some accepted span merged into an existing run.')
 ASSUMPTIONS = ['e > t', 'file-format constructors are exercised only when node ids are ints or whitespace/#-free strings']
 TECHNIQUE = 'model-based PBT + invariant checking of every derived constructor against its own presence scan'
-BUDGET = {'quick': {'cases': 16000, 'seconds': 40}, 'thorough': {'cases': 250000, 'seconds': 540}}
+BUDGET = {'quick': {'cases': 16000, 'seconds': 40}, 'thorough': {'cases': 500000, 'seconds': 540}}
 
 WINDOWS = st.lists(st.tuples(st.integers(-2, 12), st.integers(0, 8)), min_size=2, max_size=2)
 
